@@ -28,32 +28,25 @@ from ..fsmodel import StoreModel, show, mentions_sym
 PROP = "C04"
 
 
-def run(ctx: Ctx) -> None:
+def commit_rules(ctx: Ctx, top: Func, rule: str) -> None:
     rep = ctx.report
     prog = ctx.prog
-    ctx.types
-    top, nested = find_api_functions(ctx)
     cfg = cfg_of(top)
     fl = flow_of(prog, top)
-    rep.rule("C04.R1", "one sync_paths of the complete path map, after the root value exists, on every normal path; no other committer")
-    rep.rule("C04.R2", "load: key = evaluation map / fetch_paths([p]).get(p); value = fetch_blob(key) of that key")
-    rep.rule("C04.R3", "per store: location published by sync_paths == location probed by fetch_paths")
-    rep.rule("C04.R4", "REMOVE / RENAME / LINK targets in sync_paths are terms of the current path")
-
     # ---- R1 -------------------------------------------------------------------------------
     syncs = effect_sites(ctx, top, ["sync_paths"])
     where = top.loc()
     if len(syncs) != 1:
-        rep.bad("C04.R1", top.qname, "exactly one path commit in the top-level evaluation function", where,
+        rep.bad(rule, top.qname, "exactly one path commit in the top-level evaluation function", where,
                 [f"{top.loc(c)}: {unparse(c, 60)}" for c in syncs] or ["no sync_paths call"], "n-sync",
                 what=f"{len(syncs)} path commits in one evaluation (paths of a failed or partial evaluation can be committed)")
     else:
         sc = syncs[0]
         in_loop = any(isinstance(a, (ast.For, ast.While)) for a in ancestors(top.module, sc))
         if in_loop:
-            rep.bad("C04.R1", top.qname, "the path commit is outside any loop", top.loc(sc), [unparse(sc)], "sync-loop", what="paths are committed one by one")
+            rep.bad(rule, top.qname, "the path commit is outside any loop", top.loc(sc), [unparse(sc)], "sync-loop", what="paths are committed one by one")
         else:
-            rep.ok("C04.R1", top.qname, "exactly one path commit, outside loops", top.loc(sc))
+            rep.ok(rule, top.qname, "exactly one path commit, outside loops", top.loc(sc))
         # the committed mapping is the complete map of the evaluation
         req = None
         for n in top.own_nodes():
@@ -64,12 +57,12 @@ def run(ctx: Ctx) -> None:
         arg = sc.args[0] if sc.args else None
         desc = "the committed mapping is the evaluation's complete path map (the value assigned to requested_paths)"
         if req is None or arg is None:
-            rep.unknown("C04.R1", top.qname, "cannot find the requested_paths assignment / the sync_paths argument", top.loc(sc))
+            rep.unknown(rule, top.qname, "cannot find the requested_paths assignment / the sync_paths argument", top.loc(sc))
         elif isinstance(req, ast.Name) and isinstance(arg, ast.Name) and req.id == arg.id and set(fl.defs_of_use(req)) == set(fl.defs_of_use(arg)):
             sl = ctx.slicer(follow_calls=False).slice(top, arg)
             asp = sl.find(lambda f_, n_: isinstance(n_, ast.Call) and (prog.dotted(f_, n_.func) or "").endswith("all_store_paths"))
             if asp is None:
-                rep.bad("C04.R1", top.qname, "the path map derives from all_store_paths(interactions)", top.loc(sc),
+                rep.bad(rule, top.qname, "the path map derives from all_store_paths(interactions)", top.loc(sc),
                         [f"definitions of {arg.id}: " + "; ".join(unparse(d.stmt, 60) for d in fl.defs_of_use(arg))], "map-src",
                         what="the committed map is not the collection of every (path, signature) of the evaluation")
             else:
@@ -82,16 +75,16 @@ def run(ctx: Ctx) -> None:
                                 k.arg == "store_path" for k in d.value.keywords):
                             has_root = True
                 if has_root:
-                    rep.ok("C04.R1", top.qname, desc + ", root path attached", top.loc(sc))
+                    rep.ok(rule, top.qname, desc + ", root path attached", top.loc(sc))
                 else:
-                    rep.bad("C04.R1", top.qname, "the root path of dds.keep is attached before the paths are collected", top.loc(call),
+                    rep.bad(rule, top.qname, "the root path of dds.keep is attached before the paths are collected", top.loc(call),
                             [f"{top.loc(call)}: {unparse(call, 70)}: no reaching definition attaches store_path to the interactions"], "root-path",
                             what="the path kept by the outermost dds.keep is not part of the committed / checked map")
         else:
             wit = [f"requested_paths = {unparse(req, 50)}", f"sync_paths argument = {unparse(arg, 50)}"]
             if isinstance(arg, ast.Name):
                 wit += [f"{top.loc(d.stmt)}: {unparse(d.stmt, 80)}" for d in fl.defs_of_use(arg)]
-            rep.bad("C04.R1", top.qname, desc, top.loc(sc), wit, "map-same", what="sync_paths receives another (filtered / partial) mapping than the evaluation's path map")
+            rep.bad(rule, top.qname, desc, top.loc(sc), wit, "map-same", what="sync_paths receives another (filtered / partial) mapping than the evaluation's path map")
         # must pass through the commit on every normal path after the root value exists
         roots = [d for u in user_calls(top) for d in done_nodes(cfg, u)]
         roots += [d for c in store_calls(ctx, top, ["fetch_blob"]) for d in done_nodes(cfg, c)]
@@ -110,11 +103,11 @@ def run(ctx: Ctx) -> None:
                 break
         desc = "every normal path from 'root value obtained' to the return commits the paths (unless PATH_COMMIT was not requested)"
         if bad_path is None and roots:
-            rep.ok("C04.R1", top.qname, desc, top.loc(sc))
+            rep.ok(rule, top.qname, desc, top.loc(sc))
         elif not roots:
-            rep.unknown("C04.R1", top.qname, "cannot locate where the root value is obtained", where)
+            rep.unknown(rule, top.qname, "cannot locate where the root value is obtained", where)
         else:
-            rep.bad("C04.R1", top.qname, desc, top.loc(sc), witness_path(cfg, top, bad_path), "skip-commit",
+            rep.bad(rule, top.qname, desc, top.loc(sc), witness_path(cfg, top, bad_path), "skip-commit",
                     what="an evaluation can return its value without committing its paths (e.g. on a cache hit): the path keeps serving an older result")
         # commit after the blob of the root was stored
         for st in effect_sites(ctx, top, ["store_blob"]):
@@ -122,16 +115,31 @@ def run(ctx: Ctx) -> None:
                 back = cfg.find_path([sn], cfg.nodes_of(st))
                 desc = "the root blob is stored before the paths are committed"
                 if back is None:
-                    rep.ok("C04.R1", top.qname, desc, top.loc(st))
+                    rep.ok(rule, top.qname, desc, top.loc(st))
                 else:
-                    rep.bad("C04.R1", top.qname, desc, top.loc(st), witness_path(cfg, top, back), "commit-before-store", what="paths are committed before the blob they point to is stored")
+                    rep.bad(rule, top.qname, desc, top.loc(st), witness_path(cfg, top, back), "commit-before-store", what="paths are committed before the blob they point to is stored")
     strays = unowned_holders(ctx, ["sync_paths"], [top])
     for sf, call in strays:
-        rep.bad("C04.R1", sf.qname, f"sync_paths is called only from {top.name}", sf.loc(call), [f"{sf.loc(call)}: {unparse(call, 70)}"], stmt_key(call),
+        rep.bad(rule, sf.qname, f"sync_paths is called only from {top.name}", sf.loc(call), [f"{sf.loc(call)}: {unparse(call, 70)}"], stmt_key(call),
                 what="a second committer writes paths outside the single end-of-evaluation commit")
     if not strays:
-        rep.ok("C04.R1", "dds", f"sync_paths is called only from {top.name} (and delegating stores)", "dds/")
+        rep.ok(rule, "dds", f"sync_paths is called only from {top.name} (and delegating stores)", "dds/")
 
+
+
+def run(ctx: Ctx) -> None:
+    rep = ctx.report
+    prog = ctx.prog
+    ctx.types
+    top, nested = find_api_functions(ctx)
+    cfg = cfg_of(top)
+    fl = flow_of(prog, top)
+    rep.rule("C04.R1", "one sync_paths of the complete path map, after the root value exists, on every normal path; no other committer")
+    rep.rule("C04.R2", "load: key = evaluation map / fetch_paths([p]).get(p); value = fetch_blob(key) of that key")
+    rep.rule("C04.R3", "per store: location published by sync_paths == location probed by fetch_paths")
+    rep.rule("C04.R4", "REMOVE / RENAME / LINK targets in sync_paths are terms of the current path")
+
+    commit_rules(ctx, top, "C04.R1")
     # ---- R2 -------------------------------------------------------------------------------
     load = prog.funcs.get("dds._api.load")
     if load is None:
